@@ -90,6 +90,7 @@ def unit_pushpair(tier, ncon):
     TU = 'src/engine/engine_collision_driver.c'
     S = Sys(ncon)
     S.M.set('ngeom', 2); S.M.arr('geom_type', 'i32', 2, [S.w.fresh('i32', 'gt0'), S.w.fresh('i32', 'gt1')])
+    ck.prefer = [z3.ULE(S.narena, 1 << 16)]
     ex = llsym.Exec(mod(), stubs=STUBS, loop_bound=8)
     st = S.state(ex)
     args = [('ptr', (S.M.o, 0)), ('ptr', (S.D.o, 0)), ('i32', 0), ('i32', 1), ('i32', -1)]
@@ -113,6 +114,7 @@ def unit_pushpair(tier, ncon):
 
 def unit_addcontact(tier, ncon):
     ck = Checker('addContact_ncon%d' % ncon, tier, timeout_s=120)
+    PREF = True
     TU = 'src/engine/engine_core_constraint.c'
     K = build.enum_values('mjWARN_')
     S = Sys(ncon)
@@ -124,6 +126,7 @@ def unit_addcontact(tier, ncon):
     nefc0 = S.D.sym('nefc', 'nefc0'); S.pre += [nefc0 >= 0, nefc0 <= 5]
     live = [name for (_, name, _, _, _) in xmacro('MJDATA_ARENA_POINTERS_SOLVER')]
     for name in live: S.D.o.put(S.D.off(name), 'ptr', (S.arena, 0))
+    ck.prefer = [z3.ULE(S.narena, 1 << 16)]
     ex = llsym.Exec(mod(), stubs=STUBS, loop_bound=8)
     st = S.state(ex)
     args = [('ptr', (S.M.o, 0)), ('ptr', (S.D.o, 0)), ('ptr', (co, 0))]
@@ -162,6 +165,7 @@ def unit_alloc(tier, which, ncon):
     S = Sys(ncon, dims)
     num0 = S.D.sym('warning[%d].number' % K[warn], 'wnum'); S.pre += [num0 >= 0, num0 < 1000]
     if which == 'island': S.D.set('parena', S.w.fresh('u64', 'parena0')); p_sym = S.D.o.cells[S.D.off('parena')][1]; S.pre += [p_sym == ncon * S.csz]
+    ck.prefer = [z3.ULE(S.narena, 1 << 16)]
     ex = llsym.Exec(mod(), stubs=STUBS, loop_bound=8, max_paths=2000)
     st = S.state(ex)
     args = [('ptr', (S.M.o, 0)), ('ptr', (S.D.o, 0))]
